@@ -265,7 +265,10 @@ def check(prop, tier):
                                          "what": "real-time watchdog fired after %.0fs (rc=%s); last case %s" % (j.wall, j.rc, last_progress),
                                          "stderr": j.stderr_path})
                 else:
-                    crashed = True
+                    # ended abnormally without a Go crash report (killed from outside): no verdict
+                    inconclusive.append({"engine": j.engine, "case": last_progress,
+                                         "what": "child ended with rc=%s without a crash report; last case %s" % (j.rc, last_progress),
+                                         "stderr": j.stderr_path})
             if crashed:
                 sig = crash_signature(text)
                 violations.append({"engine": j.engine, "case": last_progress, "prop": prop,
